@@ -181,11 +181,81 @@ fn run(ctx: &mut Ctx) {
             if got.is_err() { break; }
         }
     });
+    stack_exchange(ctx);
+}
+
+/// phase 2: the supervisor stack pointer is part of the protection. Whenever a step changes the privilege bit - successfully or
+/// while failing - R6 and the saved stack pointer must have been exchanged in that same step (entry: saved SP := old R6,
+/// R6 := old saved SP - 2; RTI: R6 := old saved SP, saved SP := old R6 + 2). Otherwise later trap frames are written, with
+/// supervisor rights, through a pointer the user program chose. Workload: user programs calling the I/O traps under strict
+/// mode (some return addresses are uninitialized words, so the trap's RTI fails), real and virtual traps, with the
+/// `ignore_privilege` flag switched on and off between steps, R6 pointing anywhere; execution continues after errors.
+fn stack_exchange(ctx: &mut Ctx) {
+    use lc3_ensemble::sim::device::{BufferedDisplay, BufferedKeyboard};
+    use lc3_ensemble::sim::mem::{MachineInitStrategy, Word};
+    use lc3_ensemble::sim::{InternalRegister, MemAccessCtx, SimFlags, Simulator};
+    let n = ctx.tier.pick(1_500, 150_000);
+    ctx.cases(2, n, |ctx, rng, _| {
+        let (strict, real) = (rng.chance(2, 3), rng.bool());
+        let mut ign = rng.chance(1, 3);
+        let fill = rng.u16();
+        let mut sim = Simulator::new(SimFlags { strict, use_real_traps: real, ignore_privilege: ign, debug_frames: false, machine_init: MachineInitStrategy::Known { value: fill } });
+        let kb = BufferedKeyboard::default(); kb.get_buffer().write().unwrap().extend([0x41u8, 0x42, 0x43, 0x44]); sim.device_handler.set_keyboard(kb);
+        sim.device_handler.set_display(BufferedDisplay::default());
+        if sim.mmap_internal(SP_PORT, InternalRegister::SavedSP).is_err() { return; }
+        // code: a few traps / harmless instructions; some of the words after a TRAP are left uninitialized
+        let base = 0x3000 + rng.below(0x100) as u16;
+        let len = 4 + rng.usize(6);
+        let mut listing = vec![];
+        for k in 0..len as u16 {
+            let w = match rng.below(6) { 0 | 1 => 0xF020 + rng.below(5) as u16, 2 => 0x1021, 3 => 0x5260, 4 => 0xE001, _ => 0x0E00 };
+            let uninit = k > 0 && rng.chance(1, 4);
+            if uninit { let mut x = w; sim.mem[base + k] = Word::new_uninit(&mut x); } else { sim.mem[base + k] = Word::new_init(w); }
+            listing.push(format!("x{:04X}: x{w:04X}{}", base + k, if uninit { " (uninitialized)" } else { "" }));
+        }
+        sim.mem[base + len as u16] = Word::new_init(0xF025);
+        let user_r6 = *rng.pick(&[0xFE00u16, 0x4000, 0x2000, 0x0300, 0x0001, 0xFFFE, 0x2FFE]);
+        sim.reg_file[reg(6)].set(user_r6);
+        sim.reg_file[reg(0)].set(base + len as u16 + 1); sim.mem[base + len as u16 + 1] = Word::new_init(0);
+        sim.pc = base;
+        let _ = sim.write_mem(0xFFFC, Word::new_init(0x8002), priv_ctx());
+        let ssp = |s: &mut Simulator| s.read_mem(SP_PORT, MemAccessCtx::omnipotent()).map(|w| w.get()).unwrap_or(0);
+        let mut hist: Vec<String> = vec![];
+        let case = |hist: &Vec<String>| Json::obj().set("strict", strict).set("real_traps", real).set("code", Json::Arr(listing.iter().map(|l| Json::from(l.as_str())).collect())).set("user_R6", format!("x{user_r6:04X}")).set("history", Json::Arr(hist.iter().rev().take(14).rev().map(|h| Json::from(h.as_str())).collect()));
+        let mut flips = 0u64;
+        for step in 0..600 {
+            if rng.chance(1, 25) { ign = !ign; sim.flags.ignore_privilege = ign; hist.push(format!("ignore_privilege = {ign}")); }
+            let (p0, r60, s0, pc0) = (sim.psr().privileged(), sim.reg_file[reg(6)].get(), ssp(&mut sim), sim.pc);
+            let Some(r) = ctx.no_panic("step_in", || case(&hist), || sim.step_in()) else { return };
+            ctx.eval();
+            let (p1, r61, s1) = (sim.psr().privileged(), sim.reg_file[reg(6)].get(), ssp(&mut sim));
+            hist.push(format!("step {step} at x{pc0:04X}: {} -> {}{}", if p0 { "supervisor" } else { "user" }, if p1 { "supervisor" } else { "user" }, match &r { Ok(()) => String::new(), Err(e) => format!(" ({})", err_kind(e)) }));
+            if p0 != p1 {
+                flips += 1;
+                let ok = if p1 { s1 == r60 && r61 == s0.wrapping_sub(2) } else { r61 == s0 && s1 == r60.wrapping_add(2) };
+                if !ok {
+                    ctx.violation(&format!("privilege-changed-without-stack-exchange:{}:{}", if p1 { "entry" } else { "return" }, if r.is_ok() { "ok-step" } else { "failing-step" }),
+                        format!("step {step} at x{pc0:04X} went from {} to {} mode but R6/saved SP went from (x{r60:04X}, x{s0:04X}) to (x{r61:04X}, x{s1:04X})", if p0 { "supervisor" } else { "user" }, if p1 { "supervisor" } else { "user" }), case(&hist));
+                    return;
+                }
+                ctx.count(if r.is_ok() { "stack-exchange.checked" } else { "stack-exchange.checked-on-failing-step" });
+            }
+            if let Err(e) = &r {
+                ctx.count(&format!("stack-exchange.errors.{}", err_kind(e)));
+                // continue after the error, as a debugger user would: step over the offending word
+                if sim.psr().privileged() == p0 && sim.pc == pc0 { sim.pc = pc0.wrapping_add(1); }
+                if rng.chance(1, 3) { break; }
+            }
+            if sim.hit_halt() || (sim.pc == base + len as u16 && !real && sim.mem[sim.pc].get() == 0xF025) { break; }
+        }
+        if flips >= 2 { ctx.nontrivial(crate::rng::hash_bytes(format!("{listing:?}{user_r6}{strict}{real}").as_bytes())); }
+        if strict { ctx.count("stack-exchange.strict-runs"); }
+    });
 }
 
 fn guard(m: &Merged, _t: Tier) -> Vec<String> {
     let mut out = vec![];
     for k in KINDS { if k != "TRAP" { need_prefix(m, &mut out, &format!("refused.{k}."), 2); } if k != "RTI" { need_prefix(m, &mut out, &format!("legal.{k}."), 1); } }
-    for k in ["refused-region.below-user", "refused-region.io-page", "user-steps.no-supervisor-access", "user-steps.entry-accesses-only"] { need(m, &mut out, k, 20); }
+    for k in ["refused-region.below-user", "refused-region.io-page", "user-steps.no-supervisor-access", "user-steps.entry-accesses-only", "stack-exchange.checked", "stack-exchange.strict-runs"] { need(m, &mut out, k, 20); }
     out
 }
